@@ -476,6 +476,9 @@ namespace vf
       int size = *rc::gen::withSize([](int s) { return rc::gen::just(s); });
       int len = tg->tape_base + tg->tape_per_size * size;
       std::vector<uint32_t> tape = *rc::gen::resize(rc::kNominalSize, rc::gen::container<std::vector<uint32_t>>((std::size_t)len, rc::gen::arbitrary<uint32_t>()));
+      // shrink budget used up: answer every further candidate at once (running the case first made a failing run with slow
+      // cases go on for as long as rapidcheck had candidates - the C18h run that was killed after 50 minutes)
+      if(have_fail && std::chrono::duration<double>(std::chrono::steady_clock::now() - t_fail).count() > shrink_budget_s) return;
       Result r = run_case(*tg, tape, size, excluded);
       if(!have_fail)
       {
